@@ -1,6 +1,7 @@
 package main
 
 import (
+	"encoding/binary"
 	"errors"
 	"fmt"
 	"io"
@@ -216,6 +217,99 @@ func (x *ringPtr) NonZeroSlots() int {
 	return n
 }
 
+// ---- element types Go cannot compare with == (slices, functions): RingBuffer[[]byte], RingBuffer[func() int] ---------
+type ringBytes struct {
+	r   container.RingBuffer[[]byte]
+	raw func() [][]byte
+	pos func() (int, int, int)
+}
+
+func newRingBytes(c int) ringObj {
+	rb := container.NewRingBuffer[[]byte](uint(c))
+	return &ringBytes{r: rb, raw: func() [][]byte { b, _, _ := container.VerifRingRaw(rb); return b },
+		pos: func() (int, int, int) { b, r, w := container.VerifRingRaw(rb); return len(b), r, w }}
+}
+func bytesInt(b []byte) int {
+	if len(b) != 8 {
+		return 0
+	}
+	return int(binary.LittleEndian.Uint64(b))
+}
+func (x *ringBytes) Write(v int) error {
+	b := make([]byte, 8)
+	binary.LittleEndian.PutUint64(b, uint64(v))
+	return x.r.Write(b)
+}
+func (x *ringBytes) Read() (int, error) { b, err := x.r.Read(); return bytesInt(b), err }
+func (x *ringBytes) ReadN(n int) []int {
+	d := make([][]byte, n)
+	k := x.r.ReadN(d)
+	res := make([]int, k)
+	for i := 0; i < k; i++ {
+		res[i] = bytesInt(d[i])
+	}
+	return res
+}
+func (x *ringBytes) Skip(n int) int { return x.r.Skip(n) }
+func (x *ringBytes) At(i int) int   { return bytesInt(x.r.At(i)) }
+func (x *ringBytes) Clear()         { x.r.Clear() }
+func (x *ringBytes) Len() int       { return x.r.Len() }
+func (x *ringBytes) Cap() int       { return x.r.Cap() }
+func (x *ringBytes) NonZeroSlots() int {
+	n := 0
+	for _, v := range x.raw() {
+		if v != nil {
+			n++
+		}
+	}
+	return n
+}
+func (x *ringBytes) Pos() (int, int, int) { return x.pos() }
+
+type ringFunc struct {
+	r   container.RingBuffer[func() int]
+	raw func() []func() int
+	pos func() (int, int, int)
+}
+
+func newRingFunc(c int) ringObj {
+	rb := container.NewRingBuffer[func() int](uint(c))
+	return &ringFunc{r: rb, raw: func() []func() int { b, _, _ := container.VerifRingRaw(rb); return b },
+		pos: func() (int, int, int) { b, r, w := container.VerifRingRaw(rb); return len(b), r, w }}
+}
+func callInt(f func() int) int {
+	if f == nil {
+		return 0
+	}
+	return f()
+}
+func (x *ringFunc) Write(v int) error  { return x.r.Write(func() int { return v }) }
+func (x *ringFunc) Read() (int, error) { f, err := x.r.Read(); return callInt(f), err }
+func (x *ringFunc) ReadN(n int) []int {
+	d := make([]func() int, n)
+	k := x.r.ReadN(d)
+	res := make([]int, k)
+	for i := 0; i < k; i++ {
+		res[i] = callInt(d[i])
+	}
+	return res
+}
+func (x *ringFunc) Skip(n int) int { return x.r.Skip(n) }
+func (x *ringFunc) At(i int) int   { return callInt(x.r.At(i)) }
+func (x *ringFunc) Clear()         { x.r.Clear() }
+func (x *ringFunc) Len() int       { return x.r.Len() }
+func (x *ringFunc) Cap() int       { return x.r.Cap() }
+func (x *ringFunc) NonZeroSlots() int {
+	n := 0
+	for _, v := range x.raw() {
+		if v != nil {
+			n++
+		}
+	}
+	return n
+}
+func (x *ringFunc) Pos() (int, int, int) { return x.pos() }
+
 func ringErrName(err error) string {
 	switch {
 	case err == nil:
@@ -367,6 +461,12 @@ func driveRing(opt *Options) error {
 		if t%4 == 2 {
 			mk = newRingAny
 		}
+		if t%8 == 5 {
+			mk = newRingBytes
+		}
+		if t%8 == 7 {
+			mk = newRingFunc
+		}
 		o := mk(c)
 		tw.Emit(map[string]any{"op": "New", "cap": c})
 		next := 1
@@ -414,6 +514,12 @@ func driveRing(opt *Options) error {
 		mk := newRingInt
 		if t%2 == 1 {
 			mk = newRingPtr
+		}
+		if t%6 == 3 {
+			mk = newRingBytes // elements Go cannot compare with ==
+		}
+		if t%6 == 5 {
+			mk = newRingFunc
 		}
 		o := mk(c)
 		tw.Emit(map[string]any{"op": "New", "cap": c})
